@@ -127,6 +127,58 @@ let hctx_of ver infos fmts ns =
 
 let span_str v45 r = res_str (rec_end v45 r) ^ "," ^ res_str (rec_span v45 r)
 
+(* ---- headers (NV.Vcf.Header) ---- *)
+let opt_hex pre s = if s = "-" then None else Some (bytes_of_hex (sub s (String.length pre)))
+let hex_opt pre o = match o with None -> "-" | Some b -> pre ^ hex_of_bytes b
+let hnum_of s = match s with "-" -> None | "A" -> Some HA | "R" -> Some HR | "G" -> Some HG | "." -> Some HDot
+  | "LA" -> Some HLA | "LR" -> Some HLR | "LG" -> Some HLG | "P" -> Some HP | "M" -> Some HM
+  | _ -> Some (HCount (n_of_dec s))
+let hnum_str o = match o with None -> "-" | Some HA -> "A" | Some HR -> "R" | Some HG -> "G" | Some HDot -> "."
+  | Some HLA -> "LA" | Some HLR -> "LR" | Some HLG -> "LG" | Some HP -> "P" | Some HM -> "M"
+  | Some (HCount n) -> dec_of_n n
+let hty_of s = match s with "-" -> None | "I" -> Some HInteger | "F" -> Some HFloat | "B" -> Some HFlag
+  | "C" -> Some HCharacter | "S" -> Some HString | _ -> failwith "hty"
+let hty_str o = match o with None -> "-" | Some HInteger -> "I" | Some HFloat -> "F" | Some HFlag -> "B"
+  | Some HCharacter -> "C" | Some HString -> "S"
+let nopt_of s = if s = "-" then None else Some (n_of_dec s)
+let nopt_str o = match o with None -> "-" | Some n -> dec_of_n n
+
+let hmap_of (s : string) : hmap =
+  match split_on ',' s with
+  | [id; num; ty; desc; len; md5; url; idx; others] ->
+      { m_id = bytes_of_hex id; m_num = hnum_of num; m_ty = hty_of ty; m_desc = opt_hex "D" desc;
+        m_len = nopt_of len; m_md5 = opt_hex "X" md5; m_url = opt_hex "X" url; m_idx = nopt_of idx;
+        m_others = (if others = "~" then [] else List.map (fun kv -> match split_on '=' kv with
+          | [k; v] -> (bytes_of_hex k, bytes_of_hex v) | _ -> failwith "okv") (split_on '+' others)) }
+  | _ -> failwith "hmap"
+let hmap_str (m : hmap) : string =
+  String.concat "," [hex_of_bytes m.m_id; hnum_str m.m_num; hty_str m.m_ty; hex_opt "D" m.m_desc; nopt_str m.m_len;
+    hex_opt "X" m.m_md5; hex_opt "X" m.m_url; nopt_str m.m_idx;
+    (if m.m_others = [] then "~" else String.concat "+" (List.map (fun (k, v) -> hex_of_bytes k ^ "=" ^ hex_of_bytes v) m.m_others))]
+let maps_of s = if s = "~" then [] else List.map hmap_of (split_on ';' s)
+let maps_str l = if l = [] then "~" else String.concat ";" (List.map hmap_str l)
+
+let header_of (s : string) : vheader =
+  match split_on '|' s with
+  | [ff; i; fl; fo; al; co; ot; sm] ->
+      let (a, b) = (match split_on '.' ff with [a; b] -> (n_of_dec a, n_of_dec b) | _ -> failwith "ff") in
+      { hh_ff = (a, b); hh_infos = maps_of i; hh_filters = maps_of fl; hh_formats = maps_of fo; hh_alts = maps_of al;
+        hh_contigs = maps_of co;
+        hh_others = (if ot = "~" then [] else List.map (fun g -> match split_on '=' g with
+          | [k; vs] -> (bytes_of_hex k, List.map bytes_of_hex (split_on '+' vs)) | _ -> failwith "og") (split_on ';' ot));
+        hh_samples = lst_of sm }
+  | _ -> failwith "header"
+let header_str (h : vheader) : string =
+  let (a, b) = h.hh_ff in
+  String.concat "|" [dec_of_n a ^ "." ^ dec_of_n b; maps_str h.hh_infos; maps_str h.hh_filters; maps_str h.hh_formats;
+    maps_str h.hh_alts; maps_str h.hh_contigs;
+    (if h.hh_others = [] then "~" else String.concat ";" (List.map (fun (k, vs) ->
+       hex_of_bytes k ^ "=" ^ String.concat "+" (List.map hex_of_bytes vs)) h.hh_others));
+    lst_str h.hh_samples]
+let lines_str ls = String.concat "," (List.map hex_of_bytes ls)
+let lines_of s = if s = "~" then [] else List.map bytes_of_hex (split_on ',' s)
+let hres o = match o with None -> "Err" | Some h -> header_str h
+
 let handle kind a =
   try
     match kind with
@@ -187,6 +239,11 @@ let handle kind a =
         let raw = bytes_of_hex a.(4) in
         let show o = match o with None -> "Err" | Some x -> rec_str x ^ "/" ^ span_str v45 x in
         Some (show (read_eager_text (prs_of tab) h raw) ^ "|" ^ show (read_lazy_text (prs_of tab) h raw))
+    | "hw" ->
+        (match write_header (header_of a.(0)) with
+         | None -> Some "WErr"
+         | Some ls -> Some (lines_str ls ^ "|" ^ hres (read_header ls)))
+    | "hp" -> Some (hres (read_header (lines_of a.(0))))
     | _ -> None
   with Unmodelled -> None
 
